@@ -35,5 +35,5 @@ Definition spec_c10 (co : mcase * list Z) : bool :=
   match split_obs (length (mc_ops c)) (snd co) with
   | None => false
   | Some obs => agree_lists (mc_pool c) (mc_ops c)
-                            (ref_run (mc_family c =? 3) (mc_nres c) (mc_pool c) ref0 (mc_ops c)) obs
+                            (ref_run (3 <=? mc_family c) (mc_nres c) (mc_pool c) ref0 (mc_ops c)) obs
   end.
